@@ -46,6 +46,8 @@ ASSUMPTIONS = [
 ARROW_DICTIONARY_ORDER_DEMANDED = False
 
 LEVELS = ["x", "y", "z"]
+# a level whose name starts with a double underscore ('_' sorts after digits and capitals, before lower case)
+LEVELS3 = ["__p", "q", "r"]
 LEVELS2 = ["b", "A", "10"]  # sorted: '10' < 'A' < 'b' (differs from case-insensitive and from numeric-aware order)
 
 # ---------------------------------------------------------------------------------------------------------------
@@ -206,6 +208,13 @@ def reference(formula, klass, xlevels, rows, efr):
     return (names if check_names else None), mat
 
 
+DUNDER_SIG = "level-starting-with-double-underscore-dropped"
+
+
+def names_dunder_level(column_name):
+    return "[__" in column_name or "[T.__" in column_name
+
+
 def cell_is_number(v):
     return isinstance(v, (numbers.Real, np.bool_)) and not isinstance(v, str)
 
@@ -275,7 +284,7 @@ def drv_dtypes(c, ctx, col):
     cat = ctx["catalogue"]
     dname = c.pick(ctx["dtype_names"])
     kind, klass, build, declared = cat[dname]
-    formula = c.pick(FORMULAS)
+    formula = c.pick(ctx.get("formulas", FORMULAS))
     mat = c.pick(["pandas", "narwhals"]) if kind == "pandas" else "narwhals"
     out = c.pick(["pandas", "numpy", "sparse"] + (["narwhals"] if mat == "narwhals" else []))
     efr = not c.flag()
@@ -333,6 +342,13 @@ def drv_dtypes(c, ctx, col):
             want_names, want = alt_names, alt
     detail["want_columns"], detail["want"] = want_names, want
     if want_names is not None and names != want_names:
+        candidates = [want_names]
+        if dname.startswith("pa.dictionary") and not ARROW_DICTIONARY_ORDER_DEMANDED:
+            candidates.append(reference(formula, "text", R.sorted_levels(present), rows, efr)[0])
+        if any(names == [x for x in cand if not names_dunder_level(x)] and names != cand for cand in candidates):
+            # every expected column is there except exactly those of a level whose name starts with '__'
+            violation(key, detail, sig=DUNDER_SIG)
+            return
         violation(key, detail, sig="wrong-columns")
         return
     if want_names is None:
@@ -344,6 +360,94 @@ def drv_dtypes(c, ctx, col):
         violation(key, detail, sig="wrong-values")
         return
     col.count("agree:" + klass + (":missing-cell-dropped" if len(present) < len(vals) else ""))
+
+
+def outcome_of(build):
+    """-> ('ERR', exception class) | (status, names, matrix)"""
+    try:
+        m = build()
+    except Exception as e:  # noqa: BLE001 - compared, not judged
+        return ("ERR", type(e).__name__, str(e)[:200])
+    status, names, got, info = extract(m, None)
+    return (status, names, got)
+
+
+def same_result(a, b):
+    if a[0] != b[0]:
+        return False
+    if a[0] == "ERR":
+        return a[1] == b[1]
+    if a[1] != b[1] or (a[2] is None) != (b[2] is None):
+        return False
+    if a[2] is None:
+        return True
+    return len(a[2]) == len(b[2]) and all(len(r) == len(t) and all(close(x, y) for x, y in zip(r, t))
+                                          for r, t in zip(a[2], b[2]))
+
+
+def drv_reuse(c, ctx, col):
+    """History dimension: ONE Formula object (or one unfitted ModelSpec built from it) is materialized against frame 1
+    and then frame 2, where the column X may change its dtype class; every result must equal the fresh single build
+    (formula string re-parsed) of the same frame -- the verdict for a column must not depend on what the same
+    Formula / Term / Factor objects were used for before."""
+    from formulaic import Formula, ModelSpec, model_matrix
+
+    cat = ctx["catalogue"]
+    formula = c.pick(FORMULAS)
+    carrier = c.pick(["Formula", "ModelSpec"])
+    out = c.pick(ctx["outputs"])
+    efr = c.pick(ctx["efr"])
+    r1 = c.pick(ctx["routes"])
+    r2 = c.pick(ctx["routes"])
+    frames = []
+    for dname, mat in (r1, r2):
+        kind, klass, build, declared = cat[dname]
+        vals = ctx["rows_by_dtype"][dname][0][0]
+        frames.append((dname, mat, klass, vals, build_frame(kind, build(vals), len(vals))))
+
+    def kw(mat):
+        k = {"output": out, "ensure_full_rank": efr}
+        if mat == "narwhals":
+            k["materializer"] = "narwhals"
+        return k
+
+    F = Formula(formula)
+    S = ModelSpec(formula=F, output=out, ensure_full_rank=efr) if carrier == "ModelSpec" else None
+    reused = []
+    for dname, mat, klass, vals, data in frames:
+        if carrier == "Formula":
+            reused.append(outcome_of(lambda: model_matrix(F, data, **kw(mat))))
+        else:
+            reused.append(outcome_of(lambda: S.get_model_matrix(data, **({"materializer": "narwhals"} if mat == "narwhals" else {}))))
+    fresh = [outcome_of(lambda: model_matrix(formula, data, **kw(mat))) for dname, mat, klass, vals, data in frames]
+    if frames[0][2] != frames[1][2]:
+        col.interesting()
+    col.sample({"formula": formula, "carrier": carrier, "output": out, "ensure_full_rank": efr,
+                "first": "%s via %s" % r1, "second": "%s via %s" % r2})
+    for i in (0, 1):
+        if not same_result(reused[i], fresh[i]):
+            key = ("reuse :: %s carrier=%s out=%s efr=%s first=%s/%s second=%s/%s deviates at step %d"
+                   % (formula, carrier, out, efr, r1[0], r1[1], r2[0], r2[1], i + 1))
+            col.count("where[%s | %s -> %s]" % ("reused-formula-object-differs-from-fresh-build", frames[0][2], frames[1][2]))
+            col.violation(key, {"formula": formula, "carrier": carrier, "output": out, "ensure_full_rank": efr,
+                                "first": {"dtype": r1[0], "materializer": r1[1], "X": frames[0][3]},
+                                "second": {"dtype": r2[0], "materializer": r2[1], "X": frames[1][3]},
+                                "step": i + 1, "reused_object_gives": reused[i], "fresh_build_gives": fresh[i],
+                                "repro": "F = formulaic.Formula(%r); %s applied to frame 1 (X %s = %r) then frame 2 (X %s = %r) "
+                                         "vs formulaic.model_matrix(%r, frame)" % (
+                                             formula, "formulaic.model_matrix(F, frame, ...)" if carrier == "Formula"
+                                             else "S = formulaic.ModelSpec(formula=F, ...); S.get_model_matrix(frame)",
+                                             r1[0], frames[0][3], r2[0], frames[1][3], formula)},
+                          sig="reused-formula-object-differs-from-fresh-build")
+            return
+    col.count("agree:%s->%s" % (frames[0][2], frames[1][2]))
+
+
+ROUTES_QUICK = [("object", "pandas"), ("str", "pandas"), ("category(unsorted)", "pandas"), ("int64", "pandas"),
+                ("float64", "pandas"), ("bool", "pandas"), ("pa.string", "narwhals"), ("pa.int64", "narwhals")]
+ROUTES_THOROUGH = ROUTES_QUICK + [("object", "narwhals"), ("category(unused)", "narwhals"), ("string[pyarrow]", "pandas"),
+                                  ("uint8", "pandas"), ("Int64", "pandas"), ("boolean", "narwhals"),
+                                  ("pa.dictionary(unsorted)", "narwhals"), ("pa.float64", "narwhals"), ("pa.bool", "narwhals")]
 
 
 def make_ctx(thorough, levels_list, only=None, missing=False):
@@ -426,16 +530,29 @@ def subchecks(tier, seed):
     thorough = tier != "quick"
     subs = []
 
-    def add(name, thorough_scope, levels, klasses, rows, note=None, only=None, shard_depth=3, missing=False):
+    def add(name, thorough_scope, levels, klasses, rows, note=None, only=None, shard_depth=3, missing=False,
+            formulas=None):
         cat = catalogue(levels, thorough_scope)
         names = [k for k in cat if cat[k][1] in klasses and (only is None or k in only)]
         ctx = make_ctx(thorough_scope, [levels], only=names, missing=missing)[0]
         if not ctx["dtype_names"]:
             return
-        b = {"levels": levels, "rows": rows, "dtypes": ctx["dtype_names"], "formulas": FORMULAS}
+        if formulas:
+            ctx["formulas"] = formulas
+        b = {"levels": levels, "rows": rows, "dtypes": ctx["dtype_names"], "formulas": formulas or FORMULAS}
         if note:
             b["note"] = note
         subs.append(Sub(name, drv_dtypes, ctx, shard_depth=shard_depth, bounds=b))
+
+    def add_reuse(thorough_scope):
+        routes = ROUTES_THOROUGH if thorough_scope else ROUTES_QUICK
+        ctx = make_ctx(False, [LEVELS], only=sorted(set(d for d, _ in routes)))[0]
+        ctx.update({"routes": routes, "outputs": ["pandas", "numpy", "sparse"] if thorough_scope else ["pandas", "sparse"],
+                    "efr": [True, False] if thorough_scope else [True]})
+        subs.append(Sub("formula-reuse", drv_reuse, ctx, shard_depth=5,
+                        bounds={"formulas": FORMULAS, "carriers": ["one Formula object", "one unfitted ModelSpec built from it"],
+                                "routes (dtype of X, materializer)": routes, "histories": "every ordered pair of routes",
+                                "outputs": ctx["outputs"], "ensure_full_rank": ctx["efr"]}))
 
     if not thorough:
         for name, klasses in CLASSES:
@@ -445,6 +562,10 @@ def subchecks(tier, seed):
             add("missing-" + name, False, LEVELS, klasses,
                 "the 3-row column plus one missing cell, at every position (text/categorical: of two base orders)",
                 missing=True)
+        for name, klasses in CLASSES[:2]:
+            add(name + "-dunder", False, LEVELS3, klasses, "3 rows, every order; one level name starts with '__'",
+                formulas=["X", "X:A", "C(X)"])
+        add_reuse(False)
         # VERIF_SEED-selected exhaustive slice of the thorough scope: one dtype of the thorough catalogue with the
         # thorough multisets (and the second alphabet)
         allnames = [k for k in catalogue(LEVELS2, True) if k != "object(NaN)"]
@@ -461,4 +582,7 @@ def subchecks(tier, seed):
             add("missing-" + name, True, LEVELS, klasses,
                 "multisets of <= 3 rows plus one missing cell (and one value with two missing cells), every distinct order",
                 missing=True)
+        for name, klasses in CLASSES[:2]:
+            add(name + "-dunder", True, LEVELS3, klasses, rows + "; one level name starts with '__'")
+        add_reuse(True)
     return subs
